@@ -49,7 +49,21 @@ func checkC01(c RTCase) *Fail {
 	for _, lang := range langs {
 		var jobs []sut.Job
 		for i, run := range c.Runs {
-			jobs = append(jobs, sut.Job{Op: "copy", Proto: run.Proto, InFmt: "binary", OutFmt: "binary", In: inputs[i], Out: filepath.Join(b.Root, fmt.Sprintf("out%d.%s.bin", i, lang))})
+			j := sut.Job{Op: "copy", Proto: run.Proto, InFmt: "binary", OutFmt: "binary", In: inputs[i], Out: filepath.Join(b.Root, fmt.Sprintf("out%d.%s.bin", i, lang))}
+			if lang == "cpp" && i%2 == 1 {
+				// every other sequence goes through the batch overloads, with a buffer that fills up exactly
+				// where the first block of the stream ends
+				for _, s := range run.Steps {
+					if s.Stream {
+						n := 2
+						if len(s.Blocks) > 0 && s.Blocks[0] > 1 {
+							n = s.Blocks[0]
+						}
+						j.Buf = append(j.Buf, n)
+					}
+				}
+			}
+			jobs = append(jobs, j)
 		}
 		var results []sut.JobResult
 		switch lang {
